@@ -301,3 +301,75 @@ Example ex_two_replies_needed :
   let '(st1, e1) := on_headers cfg st0 7 [mk 2 1; mk 3 2]%N in          (* the first two of the peer's four headers *)
   e1 = [] /\ option_map id (tipB (d_store st1)) = Some 22%N /\ map st (d_store st1) = [Stale; Stale; Longest; Longest; Longest; Longest].
 Proof. vm_compute. repeat split; reflexivity. Qed.
+
+(* ---------------- re-sync after the sync peer is done: the step, fully characterised ---------------- *)
+(* The sync peer p goes away in the middle of a sync while exactly one other peer q is known (a connected candidate that is
+   not behind the tip and has not been asked anything yet).  Handling p's done event makes q the sync peer and sends q
+   exactly one getheaders whose locator is the store's (head = the tip) and whose stop is the next checkpoint's hash (zero when
+   none is ahead); store, nextCheckpoint and headersFirstMode are untouched.  From there the exchange with q is the
+   single-peer catch-up of catchup_linear (q's request filter is fresh) - the closed-system statement for two nodes is not
+   proved (sys_ok is a single-node invariant). *)
+Lemma aget_aset_other {A} p q (a : A) (l : list (N * A)) : q <> p -> aget q (aset p a l) = aget q l.
+Proof.
+  intros Hne. induction l as [|[x b] l IH]; cbn.
+  - destruct (N.eqb_spec p q); [congruence| reflexivity].
+  - destruct (N.eqb_spec x p) as [E|E]; cbn.
+    + subst x. destruct (N.eqb_spec p q); [congruence| reflexivity].
+    + destruct (N.eqb x q); [reflexivity| exact IH].
+Qed.
+
+Lemma disc_other st p q : q <> p -> aget q (d_objs (fst (disc st p))) = aget q (d_objs st).
+Proof.
+  intros Hne. unfold disc. destruct (aget p (d_objs st)) as [o|]; [|reflexivity]. cbn [fst d_objs with_objs]. apply aget_aset_other. exact Hne.
+Qed.
+
+Lemma disc_effs st p : snd (disc st p) = [] \/ snd (disc st p) = [Disconnect p].
+Proof. unfold disc. destruct (aget p (d_objs st)) as [o|]; [|left; reflexivity]. cbn [snd]. destruct (po_conn o); [right| left]; reflexivity. Qed.
+
+Theorem resync_after_done cfg hint st p q c oq : q <> p ->
+  d_sync st = Some p -> aget p (d_states st) = Some c -> adel p (d_states st) = [(q, true)] ->
+  aget q (d_objs st) = Some oq -> po_conn oq = true -> po_ps oq = None ->
+  tip_height (d_store st) <= po_last oq ->
+  let stop := match d_next st with Some (H, cid) => if tip_height (d_store st) <? H then cid else 0%N | None => 0%N end in
+  exists st' pre,
+    on_done cfg hint st p = (st', pre ++ [GetHeaders q (locator (d_store st)) stop]) /\ (pre = [] \/ pre = [Disconnect p]) /\
+    d_sync st' = Some q /\ d_states st' = [(q, true)] /\ d_store st' = d_store st /\ d_next st' = d_next st /\
+    (d_hfm st = true -> d_hfm st' = true).
+Proof.
+  intros Hne Hs Hp Hadel Hq Hconn Hps Hle stop.
+  unfold on_done. rewrite Hp. unfold opt_eqb. rewrite Hs, N.eqb_refl.
+  unfold update_sync_peer. cbn [d_sync with_states]. rewrite Hs.
+  set (st1 := with_states st (adel p (d_states st))).
+  pose proof (disc_frame st1 p) as (Est & Enx & Ehf & Esy & Ess). pose proof (disc_other st1 p q Hne) as Hoq. pose proof (disc_effs st1 p) as Heff.
+  destruct (disc st1 p) as [st2 e2]. cbn [fst snd] in *.
+  set (st3 := with_sync st2 None).
+  assert (Hq3: aget q (d_objs st3) = Some oq) by (cbn [st3 with_sync d_objs]; rewrite Hoq; exact Hq).
+  assert (Hss3: d_states st3 = [(q, true)]) by (cbn [st3 with_sync d_states]; rewrite Ess; exact Hadel).
+  assert (Hst3: d_store st3 = d_store st) by (cbn [st3 with_sync d_store]; rewrite Est; reflexivity).
+  assert (Hnx3: d_next st3 = d_next st) by (cbn [st3 with_sync d_next]; rewrite Enx; reflexivity).
+  assert (Hl3: last_of st3 q = po_last oq) by (unfold last_of; rewrite Hq3; reflexivity).
+  unfold start_sync. cbn [d_sync st3 with_sync]. fold st3. rewrite Hss3. cbn [filter snd fst map]. rewrite Hl3, Hst3.
+  replace (po_last oq <? tip_height (d_store st)) with false by (symmetry; apply Z.ltb_ge; lia). cbn [andb].
+  match goal with |- context [match (match ?bp with _ :: _ => ?a | [] => ?b end) with Some _ => _ | None => _ end] =>
+    assert (Hpick: (match bp with _ :: _ => a | [] => b end) = Some q) end.
+  { destruct (Z.ltb_spec (tip_height (d_store st)) (po_last oq)) as [Hlt|Hge]; cbn [map fst].
+    - destruct (memN hint [q]) eqn:Em; [|reflexivity]. apply memN_in in Em. destruct Em as [<-|[]]. reflexivity.
+    - destruct (Z.eqb_spec (po_last oq) (tip_height (d_store st))) as [_|Hn]; [|lia]. cbn [map fst].
+      destruct (memN hint [q]) eqn:Em; [|reflexivity]. apply memN_in in Em. destruct Em as [<-|[]]. reflexivity. }
+  rewrite Hpick. clear Hpick.
+  set (st0 := with_states st3 [(q, true)]).
+  assert (Hq0: aget q (d_objs st0) = Some oq) by exact Hq3.
+  assert (Hsend: forall stx loc stp, aget q (d_objs stx) = Some oq ->
+            send_gh stx q loc stp = (with_objs stx (aset q {| po_conn := po_conn oq; po_last := po_last oq; po_start := po_start oq; po_pb := hd_error loc; po_ps := Some stp |} (d_objs stx)),
+                                     [GetHeaders q loc stp])).
+  { intros stx loc stp Hx. unfold send_gh. rewrite Hx, Hps, Hconn. reflexivity. }
+  cbn [d_next d_store st0 with_states]. fold st0. rewrite Hnx3, Hst3. unfold stop.
+  destruct (d_next st) as [[H cid]|] eqn:En.
+  - destruct (tip_height (d_store st) <? H).
+    + rewrite (Hsend (with_hfm st0 true) _ cid Hq0). eexists _, e2. split; [reflexivity|]. split; [exact Heff|].
+      cbn. rewrite Est, Enx. repeat split; auto.
+    + rewrite (Hsend st0 _ 0%N Hq0). eexists _, e2. split; [reflexivity|]. split; [exact Heff|].
+      cbn. rewrite Est, Enx, Ehf. repeat split; auto.
+  - rewrite (Hsend st0 _ 0%N Hq0). eexists _, e2. split; [reflexivity|]. split; [exact Heff|].
+    cbn. rewrite Est, Enx, Ehf. repeat split; auto.
+Qed.
